@@ -297,7 +297,7 @@ type recConn struct {
 	fault func(op, key string, n int) *faultAction
 	nops  int
 	mu    sync.Mutex
-	pre   func() // optional: called before every operation (the scheduler's point)
+	pre   func()    // optional: called before every operation (the scheduler's point)
 	ops   *[]opInfo // optional: every operation is appended here
 }
 
